@@ -413,8 +413,9 @@ def write_evidence(prop, tier, seed, fam, r, mine, known, wall):
         "violations": len(mine),
         "known_findings_reported": known,
     }
-    os.makedirs(os.path.join(VERIF, "evidence"), exist_ok=True)
-    json.dump(ev, open(os.path.join(VERIF, "evidence", prop + ".json"), "w"), indent=1)
+    edir = os.environ.get("VERIF_EVIDENCE_DIR", os.path.join(VERIF, "evidence"))
+    os.makedirs(edir, exist_ok=True)
+    json.dump(ev, open(os.path.join(edir, prop + ".json"), "w"), indent=1)
 
 
 def run_check(prop, tier, seed):
@@ -442,7 +443,7 @@ def run_check(prop, tier, seed):
             known_lines.append("KNOWN-FINDING: property=%s %s" % (prop, f["what"]))
         else:
             fresh.append(v)
-    rep_dir = os.path.join(VERIF, "evidence", "replay")
+    rep_dir = os.path.join(os.environ.get("VERIF_EVIDENCE_DIR", os.path.join(VERIF, "evidence")), "replay")
     out_fresh = []
     for v in fresh[:10]:
         os.makedirs(rep_dir, exist_ok=True)
